@@ -48,7 +48,9 @@ def original(n):
     return _ORIG.get(getattr(n, "_oid", None))
 
 
-def normalise_function(node):
+def normalise_function(node, methods=None):
+    """`methods`: name -> FunctionDef of the other methods of the same class; a call `self.<m>(...)` of a one-expression method
+    is expanded like a nested helper."""
     for n in ast.walk(node):
         if not hasattr(n, "_oid"):
             _NEXT[0] += 1
@@ -104,6 +106,32 @@ def normalise_function(node):
                         self.depth -= 1
             if isinstance(f, ast.Name) and f.id in aliases:
                 c.func = ast.copy_location(copy.deepcopy(aliases[f.id]), f)
+            if methods and isinstance(f, ast.Attribute) and isinstance(f.value, ast.Name) and f.value.id == "self" and f.attr in methods and self.depth < 6 \
+                    and not any(isinstance(a, ast.Starred) for a in c.args) and all(k.arg for k in c.keywords):
+                m = methods[f.attr]
+                r = _single_return(m)
+                params = [a.arg for a in m.args.args]
+                static = any(isinstance(d, ast.Name) and d.id == "staticmethod" for d in m.decorator_list)
+                if not static and params[:1] == ["self"]:
+                    params = params[1:]
+                if r is not None and not m.args.vararg and not m.args.kwarg and not (_bound_names(r) & set(params)):
+                    mp = dict(zip(params, c.args))
+                    for k in c.keywords:
+                        if k.arg in params:
+                            mp[k.arg] = k.value
+                    for p, d in zip(params[len(params) - len(m.args.defaults):], m.args.defaults):
+                        mp.setdefault(p, d)
+                    if set(params) <= set(mp):
+                        new = _Subst(mp).visit(copy.deepcopy(r))
+                        ast.copy_location(new, c)
+                        for x in ast.walk(new):
+                            if not hasattr(x, "lineno"):
+                                ast.copy_location(x, c)
+                        self.depth += 1
+                        try:
+                            return self.visit(new)
+                        finally:
+                            self.depth -= 1
             return c
 
         def visit_For(self, lp):
